@@ -1098,7 +1098,10 @@ func marshalFloat(info TypeInfo, value interface{}) ([]byte, error) {
 	rv := reflect.ValueOf(value)
 	switch rv.Type().Kind() {
 	case reflect.Float32:
-		return encInt(int32(math.Float32bits(float32(rv.Float())))), nil
+		// convert without going through float64, which would turn a
+		// signaling NaN into a quiet one
+		f := rv.Convert(reflect.TypeOf(float32(0))).Interface().(float32)
+		return encInt(int32(math.Float32bits(f))), nil
 	}
 	return nil, marshalErrorf("can not marshal %T into %s", value, info)
 }
@@ -1118,7 +1121,9 @@ func unmarshalFloat(info TypeInfo, data []byte, value interface{}) error {
 	rv = rv.Elem()
 	switch rv.Type().Kind() {
 	case reflect.Float32:
-		rv.SetFloat(float64(math.Float32frombits(uint32(decInt(data)))))
+		// set without going through float64 to keep NaN payloads intact
+		f := math.Float32frombits(uint32(decInt(data)))
+		rv.Set(reflect.ValueOf(f).Convert(rv.Type()))
 		return nil
 	}
 	return unmarshalErrorf("can not unmarshal %s into %T", info, value)
